@@ -15,6 +15,7 @@ import (
 	"net/http/httptest"
 	"sort"
 	"strings"
+	"sync"
 
 	"github.com/emicklei/go-restful"
 	appsv1 "k8s.io/api/apps/v1"
@@ -174,6 +175,10 @@ type World struct {
 	// OpBound / LastPoolCount are scratch state of the C07 oracle.
 	OpBound       map[string]int
 	LastPoolCount int
+	// Free: the world is used by free-running goroutines (race-detector pass): its own bookkeeping is guarded by mu. Under the
+	// cooperative scheduler (one goroutine at a time, yields inside API calls) the mutex must not be used.
+	Free bool
+	mu   sync.Mutex
 	// TwoInstances is set by scenarios in which an old galaxy-ipam instance finishes a request while a new one has started:
 	// the tables MemDump reads are the new instance's, which cannot know what the old one committed after its start-up list.
 	TwoInstances bool
@@ -421,6 +426,7 @@ func (w *World) AddCRD(kind, group, version, plural string) {
 
 // Reserve creates a labelled FloatingIP object (administrator) and queues the watch event.
 func (w *World) Reserve(ip string) error {
+	defer w.freeLock()()
 	if _, ok := w.FIPs[ip]; ok {
 		return fmt.Errorf("exists")
 	}
@@ -435,6 +441,7 @@ func (w *World) Reserve(ip string) error {
 
 // Unreserve deletes a labelled FloatingIP object and queues the watch event.
 func (w *World) Unreserve(ip string) error {
+	defer w.freeLock()()
 	f, ok := w.FIPs[ip]
 	if !ok {
 		return fmt.Errorf("absent")
@@ -453,11 +460,15 @@ func (w *World) Unreserve(ip string) error {
 
 // Filter calls the plugin's Filter with the scheduler's current view of the pod and all nodes.
 func (w *World) Filter(key string) ([]string, error) {
+	unlock := w.freeLock()
 	pod := w.Pods[key]
 	if pod == nil {
+		unlock()
 		return nil, fmt.Errorf("no pod %s", key)
 	}
-	nodes, _, err := w.Plugin.Filter(pod.DeepCopy(), w.Nodes())
+	pod = pod.DeepCopy()
+	unlock()
+	nodes, _, err := w.Plugin.Filter(pod, w.Nodes())
 	var names []string
 	for _, n := range nodes {
 		names = append(names, n.Name)
@@ -505,11 +516,14 @@ func (w *World) Schedule(key string) (string, error) {
 // Deliver hands pending event i to the plugin's handlers, then plays the part of loop(): pops the
 // queued release events and runs unbind with up to 3 retries.
 func (w *World) Deliver(i int) []error {
+	unlock := w.freeLock()
 	if i < 0 || i >= len(w.Pending) {
+		unlock()
 		return nil
 	}
 	ev := w.Pending[i]
 	w.Pending = append(append([]Event{}, w.Pending[:i]...), w.Pending[i+1:]...)
+	unlock()
 	return w.DeliverEvent(ev)
 }
 
@@ -699,7 +713,19 @@ func (w *World) Alive(key string) bool {
 // API clients
 
 // afterCall runs when an API call returns: crash-after-the-call injection.
+// freeLock guards the world's own bookkeeping in Free mode.
+func (w *World) freeLock() func() {
+	if !w.Free {
+		return func() {}
+	}
+	w.mu.Lock()
+	return w.mu.Unlock
+}
+
 func (w *World) afterCall() {
+	if w.Free {
+		defer w.mu.Unlock()
+	}
 	if w.crashPending {
 		w.crashPending = false
 		w.Crashed = true
@@ -707,7 +733,16 @@ func (w *World) afterCall() {
 	}
 }
 
-func (w *World) apiCall(verb, res, name string) error {
+func (w *World) apiCall(verb, res, name string) (err error) {
+	if w.Free {
+		// held until afterCall (every client method pairs the two); released here when the call fails
+		w.mu.Lock()
+		defer func() {
+			if err != nil {
+				w.mu.Unlock()
+			}
+		}()
+	}
 	if w.Crashed {
 		// the process is dead: nothing (e.g. deferred clean-up during unwinding) reaches the API server any more
 		panic(coop.CrashSentinel{Where: "dead"})
@@ -818,7 +853,9 @@ func (p *podClient) Get(ctx gocontext.Context, name string, _ metav1.GetOptions)
 func (p *podClient) Bind(ctx gocontext.Context, b *corev1.Binding, _ metav1.CreateOptions) error {
 	w := p.w
 	if err := w.apiCall("bind", "pods", p.ns+"/"+b.Name+"->"+b.Target.Name); err != nil {
+		unlock := w.freeLock()
 		w.BindFail = append(w.BindFail, b.Name+": "+err.Error())
+		unlock()
 		return err
 	}
 	defer w.afterCall()
@@ -1113,6 +1150,7 @@ func (r *RecProvider) FailNext() { r.FailAt = r.n + 1 }
 
 func (r *RecProvider) AssignIP(in *rpc.AssignIPRequest) (*rpc.AssignIPReply, error) {
 	coop.Point("cloud", "assign "+in.IPAddress+"->"+in.NodeName)
+	defer r.w.freeLock()()
 	if r.fail() {
 		r.Calls = append(r.Calls, CloudCall{"assign", in.IPAddress, in.NodeName, false, r.w.Step, r.w.who()})
 		return &rpc.AssignIPReply{Success: false, Msg: "injected"}, nil
@@ -1124,6 +1162,7 @@ func (r *RecProvider) AssignIP(in *rpc.AssignIPRequest) (*rpc.AssignIPReply, err
 
 func (r *RecProvider) UnAssignIP(in *rpc.UnAssignIPRequest) (*rpc.UnAssignIPReply, error) {
 	coop.Point("cloud", "unassign "+in.IPAddress+"<-"+in.NodeName)
+	defer r.w.freeLock()()
 	if r.fail() {
 		r.Calls = append(r.Calls, CloudCall{"unassign", in.IPAddress, in.NodeName, false, r.w.Step, r.w.who()})
 		return &rpc.UnAssignIPReply{Success: false, Msg: "injected"}, nil
@@ -1137,11 +1176,16 @@ func (r *RecProvider) UnAssignIP(in *rpc.UnAssignIPRequest) (*rpc.UnAssignIPRepl
 
 // Preempt calls the plugin's Preempt for the pod with every node as a candidate.
 func (w *World) Preempt(key string) map[string]*schedulerapi.MetaVictims {
+	unlock := w.freeLock()
 	pod := w.Pods[key]
+	if pod != nil {
+		pod = pod.DeepCopy()
+	}
+	unlock()
 	if pod == nil {
 		return nil
 	}
-	args := &schedulerapi.ExtenderPreemptionArgs{Pod: pod.DeepCopy(), NodeNameToMetaVictims: map[string]*schedulerapi.MetaVictims{}}
+	args := &schedulerapi.ExtenderPreemptionArgs{Pod: pod, NodeNameToMetaVictims: map[string]*schedulerapi.MetaVictims{}}
 	for _, n := range w.Cfg.Nodes {
 		args.NodeNameToMetaVictims[n.Name] = &schedulerapi.MetaVictims{}
 	}
